@@ -194,6 +194,17 @@ class Inventory:
                 elts = node.elts
             elif isinstance(node, ast.Dict):
                 elts = [e for e in list(node.keys) + list(node.values) if e is not None]
+            elif isinstance(node, (ast.ListComp, ast.SetComp, ast.DictComp)):
+                # the elements a comprehension BUILDS are what the container holds: classify them with the loop
+                # variables bound to whatever kind their iterables have (fail-closed on anything else)
+                scope = dict(scope)
+                for gen in node.generators:
+                    ik = self.classify_value(m, gen.iter, scope)
+                    for t in ast.walk(gen.target):
+                        if isinstance(t, ast.Name):
+                            scope[t.id] = (ik[0] if ik[0] in ('KImmutable', 'KConstTable') else 'KOther', 'compvar')
+                    elts += list(gen.ifs)
+                elts += [node.key, node.value] if isinstance(node, ast.DictComp) else [node.elt]
             kinds = [self.classify_value(m, e, scope) for e in elts]
             bad = [k for k in kinds if k[0] not in ('KImmutable', 'KConstTable')]
             if bad:
